@@ -46,7 +46,8 @@ type Event struct {
 	Tx     string `json:"tx,omitempty"`
 	Hash   string `json:"hash,omitempty"`
 	Extra  string `json:"x,omitempty"`
-	Inc    int    `json:"inc,omitempty"` // incarnation
+	Inc    int    `json:"inc,omitempty"`  // incarnation
+	CSeq   int64  `json:"cseq,omitempty"` // sequence number among the events of the consensus and query connections
 }
 
 type persisted struct {
@@ -57,33 +58,35 @@ type persisted struct {
 }
 
 type Options struct {
-	Dir          string            // persistence dir ("" = in memory)
-	Journal      string            // journal file path ("" = none)
-	Incarnation  int               // stamped on journal lines
-	Hook         func(ev Event)    // called for every event (after journaling), e.g. crash points
-	RetainBlocks int64             // if > 0 Commit returns RetainHeight = height - RetainBlocks + 1
-	CommitDelay  time.Duration     // injected at the existing suspension point inside Commit
+	Dir          string         // persistence dir ("" = in memory)
+	Journal      string         // journal file path ("" = none)
+	Incarnation  int            // stamped on journal lines
+	Hook         func(ev Event) // called for every event (after journaling), e.g. crash points
+	RetainBlocks int64          // if > 0 Commit returns RetainHeight = height - RetainBlocks + 1
+	CommitDelay  time.Duration  // injected at the existing suspension point inside Commit
 	CheckDelay   time.Duration
 	AppVersion   uint64
 	CheckTxFn    func(tx []byte, height int64) abci.ResponseCheckTx // overrides the default verdict
-	Snapshots    SnapshotScript // see snapshot.go
+	Snapshots    SnapshotScript                                     // see snapshot.go
 }
 
 type App struct {
 	abci.BaseApplication
 	opt Options
 
-	mu      sync.Mutex
-	height  int64
-	kv      map[string]string
-	vals    map[string]int64 // hex pubkey -> power
+	mu       sync.Mutex
+	height   int64
+	kv       map[string]string
+	vals     map[string]int64 // hex pubkey -> power
 	initDone bool
 	// per block
-	valUpdates []abci.ValidatorUpdate
-	paramUpd   *abci.ConsensusParams
-	curHeight  int64
-	seq        int64
-	jf         *os.File
+	valsAtStart map[string]int64
+	valUpdates  []abci.ValidatorUpdate
+	paramUpd    *abci.ConsensusParams
+	curHeight   int64
+	seq         int64
+	cseq        int64
+	jf          *os.File
 }
 
 func New(opt Options) *App {
@@ -111,6 +114,10 @@ func New(opt Options) *App {
 func (a *App) log(conn, method, phase string, h int64, tx []byte, hash []byte, extra string) {
 	a.seq++
 	ev := Event{Seq: a.seq, Conn: conn, Method: method, Phase: phase, Height: h, Extra: extra, Inc: a.opt.Incarnation}
+	if conn != "mempool" {
+		a.cseq++
+		ev.CSeq = a.cseq
+	}
 	if tx != nil {
 		ev.Tx = hex.EncodeToString(tx)
 	}
@@ -210,6 +217,10 @@ func (a *App) BeginBlock(req abci.RequestBeginBlock) abci.ResponseBeginBlock {
 	a.curHeight = req.Header.Height
 	a.valUpdates = nil
 	a.paramUpd = nil
+	a.valsAtStart = map[string]int64{}
+	for k, v := range a.vals {
+		a.valsAtStart[k] = v
+	}
 	res := abci.ResponseBeginBlock{Events: []abci.Event{{Type: "begin", Attributes: []abci.EventAttribute{{Key: []byte("h"), Value: []byte(strconv.FormatInt(req.Header.Height, 10)), Index: true}}}}}
 	a.log("consensus", "BeginBlock", "ret", req.Header.Height, nil, nil, "")
 	return res
@@ -245,7 +256,6 @@ func (a *App) DeliverTx(req abci.RequestDeliverTx) abci.ResponseDeliverTx {
 			res.Code = 2
 			break
 		}
-		a.valUpdates = append(a.valUpdates, abci.UpdateValidator(pkb, pw, ""))
 		if pw == 0 {
 			delete(a.vals, parts[1])
 		} else {
@@ -308,6 +318,26 @@ func (a *App) EndBlock(req abci.RequestEndBlock) abci.ResponseEndBlock {
 	a.mu.Lock()
 	defer a.mu.Unlock()
 	a.log("consensus", "EndBlock", "call", req.Height, nil, nil, "")
+	// validator updates = net change of this block (each validator at most once, no removal of a non-member)
+	a.valUpdates = nil
+	keys := map[string]bool{}
+	for k := range a.vals {
+		keys[k] = true
+	}
+	for k := range a.valsAtStart {
+		keys[k] = true
+	}
+	sorted := make([]string, 0, len(keys))
+	for k := range keys {
+		sorted = append(sorted, k)
+	}
+	sort.Strings(sorted)
+	for _, k := range sorted {
+		if a.vals[k] != a.valsAtStart[k] {
+			pkb, _ := hex.DecodeString(k)
+			a.valUpdates = append(a.valUpdates, abci.UpdateValidator(pkb, a.vals[k], ""))
+		}
+	}
 	res := abci.ResponseEndBlock{ValidatorUpdates: a.valUpdates, ConsensusParamUpdates: a.paramUpd,
 		Events: []abci.Event{{Type: "end", Attributes: []abci.EventAttribute{{Key: []byte("h"), Value: []byte(strconv.FormatInt(req.Height, 10)), Index: true}}}}}
 	a.log("consensus", "EndBlock", "ret", req.Height, nil, nil, fmt.Sprintf("valupd=%d", len(a.valUpdates)))
